@@ -157,11 +157,29 @@ def _AC2BO(AC: np.ndarray[tuple[N, N], np.dtype[np.int8]],
         valences_list_of_lists.append(possible_valence)
 
     # convert [[4],[2,1]] to [[4,2],[4,1]]
-    valences_list = itertools.product(*valences_list_of_lists)
+    valences_lists = [itertools.product(*valences_list_of_lists)]
+
+    if not allow_charged_fragments and all(
+        a in atomic_valence_electrons for a in atom_nrs
+    ):
+        # Closed-shell molecules: first try the valences that leave every atom
+        # neutral. Otherwise the first valence combination that can be
+        # saturated wins, which depends on the order of the atoms and can
+        # return a diradical (e.g. H2N=SH instead of H2N-SH).
+        neutral_valences = [
+            [
+                v
+                for v in possible_valences
+                if _get_atomic_charge(a, atomic_valence_electrons[a], v) == 0
+            ]
+            for a, possible_valences in zip(atom_nrs, valences_list_of_lists)
+        ]
+        if all(neutral_valences):
+            valences_lists.insert(0, itertools.product(*neutral_valences))
 
     best_BO = AC.copy()
 
-    for valences in valences_list:
+    for valences in itertools.chain(*valences_lists):
         UA, DU_from_AC = _get_UA(valences, AC_valence)
 
         check_len = len(UA) == 0
